@@ -56,7 +56,11 @@ def call(mm, op):
   try:
     k = op[0]
     if k in ('geos_over_budget', 'geos_too_large', 'geos_must_include', 'geos_within_constraints'):
-      return ('ok', canon(getattr(mm, k)))
+      v = getattr(mm, k)
+      ans = canon(v)
+      if isinstance(v, set) and len(op) > 1 and op[1] == 'consume':
+        v.clear()      # what the caller does with the answer it was given is its own business: later answers must not change
+      return ('ok', ans)
     if k == 'assignments':
       return ('ok', canon(mm.geo_assignments))
     if k == 'sizeRange':
@@ -117,6 +121,8 @@ def gen_ops(rng, n_adm):
       rng.shuffle(idx)
       a = rng.randint(0, min(2, len(idx) - 1))
       ops.append(('ok', sorted(idx[:a]), sorted(idx[a:a + rng.randint(0, 2)])))
+    elif k.startswith('geos_') and rng.random() < 0.4:
+      ops.append((k, 'consume'))      # the caller empties the set it was handed
     else:
       ops.append((k,))
   if rng.random() < 0.5:
